@@ -265,6 +265,23 @@ pub fn run(op: &str, case: &Value) -> Result<Value> {
                 }
             }
         }
+        "bound_ops" => {
+            let a = ommx::Bound::new(jf(&case["a"][0])?, jf(&case["a"][1])?)?;
+            let b = ommx::Bound::new(jf(&case["b"][0])?, jf(&case["b"][1])?)?;
+            let e = ju(&case["exp"])? as u8;
+            let m = a * b;
+            let p = a.pow(e);
+            json!({"ok": {"mul": [fj(m.lower()), fj(m.upper())], "pow": [fj(p.lower()), fj(p.upper())]}})
+        }
+        "evaluate_bound" => {
+            let f: Function = msg(&case["f"])?;
+            let mut bounds = ommx::Bounds::new();
+            for (k, v) in case["bounds"].as_object().ok_or_else(|| anyhow!("bounds"))? {
+                bounds.insert(ommx::VariableID::from(k.parse::<u64>()?), ommx::Bound::new(jf(&v[0])?, jf(&v[1])?)?);
+            }
+            let b = f.evaluate_bound(&bounds);
+            json!({"ok": {"bound": [fj(b.lower()), fj(b.upper())]}})
+        }
         _ => bail!("unknown op {op}"),
     })
 }
